@@ -176,7 +176,7 @@ class Scan:
             for p in ps:
                 for e in p.events:
                     if e.kind == "call" and e.inlined:
-                        for f in e.targets:
+                        for f in list(e.targets) + ([e.helper] if e.helper is not None else []):
                             inlined.add(f.qual)
                     for tm in list(e.args or ()) + [v for _, v in (e.kwargs or ())] + ([e.cb] if e.cb is not None else []) + \
                             ([e.value] if isinstance(e.value, tuple) else []):
